@@ -492,7 +492,7 @@ func (u *clientUpdater) updateService(ctx context.Context, service ServiceDefini
 		if err != nil {
 			return err
 		}
-		exists, err := u.store.exists(service.ID, credentialSubjectID.String(), presentation.ID.String())
+		exists, err := u.store.contains(service.ID, credentialSubjectID.String(), presentation)
 		if err != nil {
 			return err
 		}
